@@ -172,6 +172,10 @@ package message1_1
 //@ func message1_1.FromNet {C12,C15}
 //@   after BindnodeRegistry.TypeFromReader [decodes-into-prototype] $r1 == nil ==> dyntype_is($r0, *TransferMessage1_1) && $r0.(*TransferMessage1_1) != nil
 //@   ensures [decode-error] ret(BindnodeRegistry.TypeFromReader, 1) != nil ==> err != nil && result0 == nil
+//@   ensures [well-formed-accepted] calls(BindnodeRegistry.TypeFromReader) == 1 && ret(BindnodeRegistry.TypeFromReader, 1) == nil &&
+//@       ((*ret(BindnodeRegistry.TypeFromReader, 0).(*TransferMessage1_1)).IsRequest ? (*ret(BindnodeRegistry.TypeFromReader, 0).(*TransferMessage1_1)).Request != nil :
+//@           (*ret(BindnodeRegistry.TypeFromReader, 0).(*TransferMessage1_1)).Response != nil) ==> err == nil
+//@       -- a message that decodes and carries the body its kind announces is accepted
 //@   ensures [kind] err == nil ==> result0 != nil && (result0.IsRequest() ? implements(result0, datatransfer.Request) : implements(result0, datatransfer.Response))
 //@   ensures [body] err == nil ==> result0 != nil && calls(BindnodeRegistry.TypeFromReader) == 1 &&
 //@       ((*ret(BindnodeRegistry.TypeFromReader, 0).(*TransferMessage1_1)).IsRequest ?
@@ -182,6 +186,10 @@ package message1_1
 //@ func message1_1.FromIPLD {C12,C16}
 //@   after BindnodeRegistry.TypeFromNode [decodes-into-prototype] $r1 == nil ==> dyntype_is($r0, *TransferMessage1_1) && $r0.(*TransferMessage1_1) != nil
 //@   ensures [decode-error] calls(BindnodeRegistry.TypeFromNode) == 1 && ret(BindnodeRegistry.TypeFromNode, 1) != nil ==> err != nil && result0 == nil
+//@   ensures [well-formed-accepted] calls(BindnodeRegistry.TypeFromNode) == 1 && ret(BindnodeRegistry.TypeFromNode, 1) == nil &&
+//@       ((*ret(BindnodeRegistry.TypeFromNode, 0).(*TransferMessage1_1)).IsRequest ? (*ret(BindnodeRegistry.TypeFromNode, 0).(*TransferMessage1_1)).Request != nil :
+//@           (*ret(BindnodeRegistry.TypeFromNode, 0).(*TransferMessage1_1)).Response != nil) ==> err == nil
+//@       -- a message that decodes and carries the body its kind announces is accepted
 //@   ensures [kind] err == nil ==> result0 != nil && (result0.IsRequest() ? implements(result0, datatransfer.Request) : implements(result0, datatransfer.Response))
 //@   ensures [body] err == nil ==> result0 != nil && calls(BindnodeRegistry.TypeFromNode) == 1 &&
 //@       ((*ret(BindnodeRegistry.TypeFromNode, 0).(*TransferMessage1_1)).IsRequest ?
